@@ -14,7 +14,8 @@
 //!  * `declare_modules` (src/typechecker/mod.rs): the parent of a module scope;
 //!  * `TypeInfo::full_name` (src/typechecker/info.rs): the separator;
 //!  * `Module::get_function` (src/codegen/mod.rs): the prefix of the looked-up name;
-//!  * src/file_tree.rs: the stems `find_files` skips, the extension it wants, the
+//!  * src/file_tree.rs: that every way to build a tree calls its root `pkg`; the
+//!    stems `find_files` skips, the extension it wants, the
 //!    file `process_subdir` requires, the file `directory` starts from, the file
 //!    name `read_internal` treats as "named after the directory".
 //!
@@ -236,6 +237,18 @@ fn scopefacts(repo: &Path) -> Result<String, String> {
     let mut e = Compared("ext", vec![]);
     e.visit_block(&f.block);
     let ext = one("find_files: ext != <literal>", &e.1.iter().filter(|(op, _)| op == "!=").map(|(_, s)| s.clone()).collect::<Vec<_>>())?;
+    // the root of every tree is called `pkg`
+    let mut root_named_pkg = true;
+    for (fname, pat) in [
+        ("file_spec", "files[0].module_name=\"pkg\".into();"),
+        ("single_file", "file.module_name=\"pkg\".into();"),
+        ("directory", "assert_eq!(pkg_file.module_name,\"pkg\");"),
+    ] {
+        let f = find::func(&ft_rs, fname, None)?;
+        if !flat(&f.block).contains(pat) {
+            root_named_pkg = false;
+        }
+    }
     let f = find::func(&ft_rs, "process_subdir", None)?;
     let mut j = MethodLits("join", vec![]);
     j.visit_block(&f.block);
@@ -261,6 +274,7 @@ fn scopefacts(repo: &Path) -> Result<String, String> {
     out.push_str(&format!("/-- first argument of `wrap` for a script module's scope (character codes) -/\ndef moduleScopeParent : List Nat := {}\n\n", codes(&module_parent)));
     out.push_str(&format!("def fullNameSeparator : List Nat := {}\n\n", codes(&sep)));
     out.push_str(&format!("/-- `get_function` looks up this prefix followed by the given name -/\ndef getFunctionPrefix : List Nat := {}\n\n", codes(&prefix)));
+    out.push_str(&format!("/-- `file_spec`, `single_file` and `directory` all call the root module `pkg` -/\ndef rootNamedPkg : Bool := {root_named_pkg}\n\n"));
     out.push_str(&format!("/-- stems `find_files` does not turn into modules -/\ndef skippedStems : List (List Nat) := [{}]\n\n", skipped.iter().map(|s| codes(s)).collect::<Vec<_>>().join(", ")));
     out.push_str(&format!("def moduleExtension : List Nat := {}\n\n", codes(&ext)));
     out.push_str(&format!("/-- the file a directory needs to be a module -/\ndef dirModuleFile : List Nat := {}\n\n", codes(&dir_file)));
